@@ -1,0 +1,19 @@
+package shared
+
+import (
+	"fmt"
+)
+
+// go-pcre raises a panic by design when the matching could not be completed,
+// e.g. "match limit exceeded" or "nested recursion at the same subject position".
+// PcreMatch calls the matching function and converts the panic to an error
+// in order to report it as the runtime error, the subject string may come from the request.
+func PcreMatch(match func()) (err error) {
+	defer func() {
+		if r := recover(); r != nil {
+			err = fmt.Errorf("regular expression matching failed: %v", r)
+		}
+	}()
+	match()
+	return nil
+}
